@@ -9,7 +9,6 @@ import (
 	"testing"
 	"time"
 
-	"github.com/postalsys/muti-metroo/internal/config"
 	"github.com/postalsys/muti-metroo/internal/crypto"
 	"github.com/postalsys/muti-metroo/internal/identity"
 	"github.com/postalsys/muti-metroo/internal/protocol"
@@ -29,17 +28,6 @@ var (
 	vpC19aOnce sync.Once
 	vpC19aLis  *harn.Listener
 )
-
-func vpQuietAgentConfig(dir string) *config.Config {
-	cfg := config.Default()
-	cfg.Agent.DataDir = dir
-	cfg.Agent.LogLevel = "error"
-	cfg.SOCKS5.Enabled = false
-	cfg.HTTP.Enabled = false
-	cfg.Listeners = nil
-	cfg.Peers = nil
-	return cfg
-}
 
 func TestVP_C19_Agent(t *testing.T) {
 	st := vp.NewStats("C19", "agent", "real Agent with 0-2 configured exit networks; histories of ManageRoute add/remove/list over nested loopback networks (re-adding present routes, removing twice, touching config routes) interleaved with open requests through the agent's own exit handler; non-trivial = an open decided after the same network was added at least twice and removed at least once, or after removing a network that covers the destination")
